@@ -321,6 +321,9 @@ func c19Work(c *mc.Ctx) {
 	if c.Owns(len(scs) + 1) {
 		c19SizeSweep(c)
 	}
+	if c.Owns(len(scs) + 2) {
+		c19DeepHistory(c)
+	}
 	// (a) BFS over histories, de-duplicated on the tables' contents. The search is
 	// sharded by the first operation of the history (each shard de-duplicates locally).
 	depth, alpha := 4, []int{0, 1, 2, 4}
@@ -508,4 +511,115 @@ func c19SizeSweep(c *mc.Ctx) {
 		}
 	})
 	c.Outcome("sweep-done")
+}
+
+// c19DeepHistory: ONE interned field of one instance sees more than 2^14 (thorough: 2^16) distinct
+// values, then a tail of large new values (1 MiB in all, more than everything decoded before);
+// every string ever returned is kept and compared with a private copy taken when it was returned -
+// at every power of two of the table size and at the end - and every returned value is compared
+// with what was encoded. (The library copies the table for each new value: the cost is quadratic,
+// which is why this history has a field to itself and a worker to itself.)
+func c19DeepHistory(c *mc.Ctx) {
+	n := 1<<14 + 2
+	if c.Tier == "thorough" {
+		n = 1<<16 + 2
+	}
+	if !c.Begin(fmt.Sprintf(`{"set":"deep-history","distinct_values":%d}`, n)) {
+		return
+	}
+	c.Dim("deep-history")
+	type one struct {
+		V string `plenc:"1,intern"`
+	}
+	type plain struct {
+		V string `plenc:"1"`
+	}
+	c.Guard("deep|", func() {
+		p := NewPlenc(ref.Cfg{})
+		var returned, copies []string
+		recheck := func(at int) bool {
+			for k := range returned {
+				if returned[k] != copies[k] {
+					c.Violation("deep|returned-string-changed-later", fmt.Sprintf("string %d returned earlier was %q and is now %q (after %d distinct values through the field)", k, trunc(copies[k]), trunc(returned[k]), at))
+					return false
+				}
+			}
+			return true
+		}
+		decode := func(i int, s string) bool {
+			data, err := p.Marshal(nil, &plain{V: s})
+			var got one
+			if err == nil {
+				err = p.Unmarshal(data, &got)
+			}
+			for k := range data {
+				data[k] = 0xEE
+			}
+			c.Ops(2)
+			c.AddEvals(1)
+			c.Count("states", 1)
+			if err != nil || got.V != s {
+				c.Violation("deep|interned-differs-from-encoded", fmt.Sprintf("value %d through the field: encoded %q, decoded %q (%v)", i, trunc(s), trunc(got.V), err))
+				return false
+			}
+			returned = append(returned, got.V)
+			copies = append(copies, strings.Clone(got.V))
+			return true
+		}
+		done := 0
+		for i := 0; i < n; i++ {
+			if c.Expired() {
+				c.Note(fmt.Sprintf("deep history stopped after %d distinct values", i))
+				break
+			}
+			if i%256 == 0 {
+				c.Heartbeat()
+			}
+			c.NonTrivialKey(fmt.Sprintf("deep%d", i))
+			if !decode(i, fmt.Sprintf("v%07d", i)) {
+				return
+			}
+			done = i + 1
+			if i&(i-1) == 0 || i&(i+1) == 0 { // around every power of two
+				if !recheck(i) {
+					return
+				}
+				// an old value again: now served from the table
+				if !decode(i, fmt.Sprintf("v%07d", i/2)) {
+					return
+				}
+			}
+		}
+		// the tail: new values that together are larger than everything decoded so far
+		for j := 0; j < 256 && !c.Expired(); j++ {
+			c.NonTrivialKey(fmt.Sprintf("tail%d", j))
+			if !decode(done+j, strings.Repeat(string(rune('A'+j%26)), 4096)+fmt.Sprint(j)) {
+				return
+			}
+			if j%32 == 31 {
+				c.Heartbeat()
+				if !recheck(done + j) {
+					return
+				}
+			}
+		}
+		if !recheck(done + 256) {
+			return
+		}
+		// and the earliest, middle and latest values once more
+		for _, i := range []int{0, 1, done / 2, done - 1} {
+			if i >= 0 && i < done && !decode(i, fmt.Sprintf("v%07d", i)) {
+				return
+			}
+		}
+		c.Max("max_deep_history", int64(done))
+	})
+	c.Outcome("deep-done")
+}
+
+func trunc(s string) string {
+	if len(s) > 40 {
+		return s[:40] + fmt.Sprintf("...(%d bytes)", len(s))
+	}
+	return s
 }
